@@ -22,7 +22,7 @@ MODES = ["inplace"]
 def generate(rng, tier):
     n = 500 if tier == "quick" else 6000
     for _ in range(n):
-        yield pc.gen_case(rng, tier, MODES, p_save=0.2)
+        yield pc.gen_case(rng, tier, MODES, p_save=0.2, sub_edits=0.15)
 
 
 def run_impl(case):
